@@ -165,7 +165,9 @@ H_EAttach(s, r, l) ==
                              !.autoAcc = IF ~eutSender /\ ci > 0 THEN s.pendCfg[ci].autoAcc ELSE @,
                              !.idc = IF eutSender /\ f.idc >= 0 THEN f.idc ELSE @, !.dcS = IF eutSender /\ f.idc >= 0 THEN f.idc ELSE @, !.fBase = IF eutSender /\ f.idc >= 0 THEN f.idc ELSE @,
                              !.limit = IF eutSender /\ f.idc >= 0 /\ base.limRel >= 0 THEN f.idc + base.limRel ELSE @,
-                             !.snd = IF ans > 0 THEN @ ELSE f.snd, !.rcv = IF ans > 0 THEN @ ELSE f.rcv]
+                             \* the settle modes in use: snd-settle-mode is what the sender states, rcv-settle-mode what the receiver states (2.7.3);
+                             \* the other side's value is a wish and counts only until the owner has spoken
+                             !.snd = IF eutSender \/ ans = 0 THEN f.snd ELSE @, !.rcv = IF ~eutSender \/ ans = 0 THEN f.rcv ELSE @]
        IN R([s EXCEPT !.ls = IF ans > 0 THEN [s.ls EXCEPT ![ans] = y] ELSE Append(s.ls, y)],
               Chk("C11_HandleUnique", ~dupH, l, "") + Chk("C11_NameOnce", ~dupN, l, f.name)
             + Chk("C13_SenderStatesCount", ~eutSender \/ f.idc >= 0, l, ""))
@@ -355,7 +357,7 @@ H_PAttach(s, r, l) ==
       base == IF ans > 0 THEN s.ls[ans] ELSE NewLink
       y == [base EXCEPT !.pch = r.ch, !.ph = f.h, !.name = f.name, !.eutSender = eutSender, !.pAtt = TRUE, !.mmsP = f.mms,
                         !.dcR = IF ~eutSender /\ f.idc >= 0 THEN f.idc ELSE @, !.dcGot = IF ~eutSender /\ f.idc >= 0 THEN f.idc ELSE @, !.idcP = IF ~eutSender /\ f.idc >= 0 THEN f.idc ELSE @,
-                        !.snd = IF ans > 0 THEN @ ELSE f.snd, !.rcv = IF ans > 0 THEN @ ELSE f.rcv]
+                        !.snd = IF ~eutSender \/ ans = 0 THEN f.snd ELSE @, !.rcv = IF eutSender \/ ans = 0 THEN f.rcv ELSE @]
   IN R([s EXCEPT !.ls = IF ans > 0 THEN [s.ls EXCEPT ![ans] = y] ELSE Append(s.ls, y)], 0)
 
 H_PDetach(s, r, l) ==
